@@ -43,6 +43,7 @@ var (
 	c02invalid     = core.RegCounter("c02.invalid_option_or_length_cases")
 	c02chunkTwin   = core.RegCounter("c02.hedged_replayed_with_other_chunking")
 	c02enumCases   = core.RegCounter("c02.entropy_error_enumeration_cases")
+	c02wireKeyLen  = core.RegCounter("c02.wire.key_truncated_or_extended")
 	c02rxReuse     = core.RegCounter("c02.tours_through_one_reused_receive_buffer")
 	c02rxCompanion = core.RegCounter("c02.other_signers_tuple_read_into_the_receive_buffer_first")
 	c02ctx255      = core.RegCounter("c02.context_of_254_or_255_bytes")
@@ -194,19 +195,27 @@ func c02AllPaths(r *core.Run, pk, msg, sig []byte, v c02Variant) (acc, total int
 		if c02companion != nil {
 			co := &ed25519.Options{Verify: p}
 			rv.Reset()
-			if i%2 == 1 {
+			forced, withBad := i >= 2, i%2 == 1 // the four combinations over the four presets
+			if forced {
 				rv.ForceNoPublicKeyExpansion()
 				rv.AddWithOptions(pk, msg, sig, o)
 				rv.AddWithOptions(c02companion.pk, c02companion.msg, c02companion.sig, co)
-				rv.AddWithOptions(c02companion.pk, c02companion.msg, c02companion.sig[:63], co)
 			} else {
 				rv.AddWithOptions(c02companion.pk, c02companion.msg, c02companion.sig, co)
 				rv.AddWithOptions(pk, msg, sig, o)
 			}
+			if withBad {
+				rv.AddWithOptions(c02companion.pk, c02companion.msg, c02companion.sig[:63], co)
+			}
+			// asking the batch-only question first (and again afterwards) must not change any answer
+			// (twice in a row as well: an effect that undoes itself on every second call would hide behind Verify's own batch pass)
+			bo1 := rv.VerifyBatchOnly(NewDetReader(uint64(i) + 71))
+			bo1b := rv.VerifyBatchOnly(NewDetReader(uint64(i) + 73))
 			_, rres := rv.Verify(NewDetReader(uint64(i) + 61))
+			bo2 := rv.VerifyBatchOnly(NewDetReader(uint64(i) + 72))
 			r.Count(c02batches)
 			total++
-			if len(rres) == 2+i%2 && rres[0] && rres[1] {
+			if len(rres) == 2+i%2 && rres[0] && rres[1] && bo1 == bo1b && bo1 == bo2 && (!withBad || !bo1) {
 				acc++
 			} else if detail == "" {
 				detail = "batch in a verifier reused after Reset/" + c02presetNames[i]
@@ -533,7 +542,18 @@ func runC02(e *Env, r *core.Run) {
 			r.Count(c02wire)
 			apk, amsg, asig, av := clone(pub), clone(msg), clone(sig), v
 			what := ""
-			switch t.W(6) {
+			switch t.W(7) {
+			case 6:
+				switch t.W(3) {
+				case 0:
+					apk = apk[:t.W(32)]
+				case 1:
+					apk = append(apk, byte(t.W(256)))
+				default:
+					apk = append(apk, pub...) // the key twice (a duplicated field)
+				}
+				what = "key length"
+				r.Count(c02wireKeyLen)
 			case 0, 1:
 				i := t.W(512)
 				asig[i/8] ^= 1 << uint(i%8)
